@@ -21,6 +21,7 @@ def run(tier: str) -> int:
     n = 600 if tier == "quick" else 8000
     cs = [{"id": f"c{i}", "how": hows[i % len(hows)], "n": i % 23, "hist": hists[(i // len(hows)) % len(hists)]} for i in range(n)]
     recs += pmap(drv.exec_chart, cs)
+    recs += pmap(drv.exec_bundled, drv.bundled_scenarios(tier), chunk=1)
     rejects, consumed, wall = validate_traces("QuaTrace", "QuaTrace", recs, tag=f"c06-{tier}")
     chk.add_traces(recs, rejects)
     chk.nontrivial = len({(x["op"], x["cls"], str(x.get("doc", x.get("gens")))[:2000]) for x in recs})
